@@ -1,4 +1,5 @@
 import QV.Proofs.Bind
+import QV.Proofs.BindTyped
 /-!
 # C08 – Binding parameters is specialisation
 
@@ -18,6 +19,14 @@ The one listed defect is the quirk `bindDropsType`: `bind` injects `k = v` as a 
 so the declared `Parameter[T]` is lost and the constant is typed by `const_to_qtype` (smallest
 `Qint` that holds the value).  Python's values do not notice (`bind_sem_python` holds for the
 code as it is); the width-aware values do (`bind_drops_type_witness`).
+
+The repaired `bind` (quirk off; docs/fixes/C08-bind-typed-constants.diff) injects the typed assignment
+`k: T = v` whenever `v` is a value of the declared type `T` (`isValueOf`, `Prog.keptTy`) and the bare
+literal otherwise (`bind_keeps_declared_type`).  "At their declared types" below is `Prog.keptTy`: the
+declared type for a value of it; a keyword value that is no value of the declared type (15 for `Qint[3]`,
+a tuple of the wrong length, any value of a parameter declared `Parameter[List[int]]`) has no declared-type
+reading and keeps the type of its literal.  For a value of the declared type the typed constant never fails
+and is exactly the declared-width encoding (`typed_const_qint`, `typed_const_defined`).
 -/
 namespace QV.C08
 open QV QV.Bind
@@ -39,7 +48,7 @@ def KwOk (kv : List (String × PyVal)) : Prop := (kv.map (·.1)).Nodup
 def C08_statement_for (q : Quirks) : Prop :=
   (∀ (A : Alg) (p : Prog) (kv : List (String × PyVal)) (xs : List A.V) (p' : Prog),
       WellFormed p → KwOk kv → QV.Bind.bind q p kv = .ok p' →
-        Sem A p' xs = specialised A p.declTy p kv xs)
+        Sem A p' xs = specialised A p.keptTy p kv xs)
   ∧ (∀ (p : Prog) (kv : List (String × PyVal)), WellFormed p → KwOk kv →
       ((∃ p', QV.Bind.bind q p kv = .ok p') ↔ (kv.map (·.1)).Perm p.paramNames))
   ∧ (∀ (u : Unbound) (hist : List (List (String × PyVal))) (kv : List (String × PyVal)),
@@ -193,10 +202,10 @@ theorem bind_sem (A : Alg) (q : Quirks) (p p' : Prog) (kv : List (String × PyVa
 /-- a keyword list **does not run into the defect** when every value, coerced to its declared
     type, is the same constant as without coercion -/
 def NoTrigger (A : Alg) (q : Quirks) (p : Prog) (kv : List (String × PyVal)) : Prop :=
-  q.bindDropsType = true → ∀ k v, (k, v) ∈ kv → constVal A (p.declTy k) v = constVal A none v
+  q.bindDropsType = true → ∀ k v, (k, v) ∈ kv → constVal A (p.keptTy k v) v = constVal A none v
 
-theorem kvVals_congr (A : Alg) (ty ty' : String → Option Ty) (kv : List (String × PyVal))
-    (h : ∀ k v, (k, v) ∈ kv → constVal A (ty k) v = constVal A (ty' k) v) :
+theorem kvVals_congr (A : Alg) (ty ty' : String → PyVal → Option Ty) (kv : List (String × PyVal))
+    (h : ∀ k v, (k, v) ∈ kv → constVal A (ty k v) v = constVal A (ty' k v) v) :
     kvVals A ty kv = kvVals A ty' kv := by
   induction kv with
   | nil => rfl
@@ -209,10 +218,10 @@ theorem kvVals_congr (A : Alg) (ty ty' : String → Option Ty) (kv : List (Strin
 theorem C08_partial (A : Alg) (q : Quirks) (p p' : Prog) (kv : List (String × PyVal))
     (xs : List A.V) (hwf : WellFormed p) (hkw : KwOk kv) (hb : QV.Bind.bind q p kv = .ok p')
     (hnt : NoTrigger A q p kv) :
-    Sem A p' xs = specialised A p.declTy p kv xs := by
+    Sem A p' xs = specialised A p.keptTy p kv xs := by
   rw [bind_sem A q p p' kv xs hwf hkw hb]
   unfold specialised
-  rw [kvVals_congr A (tyOf q p) p.declTy kv]
+  rw [kvVals_congr A (tyOf q p) p.keptTy kv]
   intro k v hkv
   unfold tyOf
   cases hq : q.bindDropsType
@@ -224,13 +233,67 @@ theorem C08_partial (A : Alg) (q : Quirks) (p p' : Prog) (kv : List (String × P
     specification on every program, keyword list and argument list -/
 theorem bind_sem_python (q : Quirks) (p p' : Prog) (kv : List (String × PyVal)) (xs : List PV)
     (hwf : WellFormed p) (hkw : KwOk kv) (hb : QV.Bind.bind q p kv = .ok p') :
-    Sem PyAlg p' xs = specialised PyAlg p.declTy p kv xs := by
+    Sem PyAlg p' xs = specialised PyAlg p.keptTy p kv xs := by
   apply C08_partial PyAlg q p p' kv xs hwf hkw hb
   intro _ k v _
   unfold constVal
   cases evalExp PyAlg Env.empty (toVal v) with
   | none => rfl
-  | some x => cases p.declTy k <;> rfl
+  | some x => cases p.keptTy k v <;> rfl
+
+/-! ## the repaired bind keeps the declared type -/
+
+/-- **what the repaired bind injects**: for keyword `k = v` the typed assignment `k: T = v` exactly when `T` is
+    the declared type of `k` and `v` is a value of `T`; the bare literal otherwise, and always with the quirk -/
+theorem bind_keeps_declared_type (q : Quirks) (p : Prog) (kv : List (String × PyVal)) :
+    injected q p kv = kv.map (fun e => (⟨e.1, if q.bindDropsType then none else p.keptTy e.1 e.2, toVal e.2⟩ : Stmt))
+    ∧ ∀ k v t, p.keptTy k v = some t ↔ (p.declTy k = some t ∧ isValueOf t v = true) := by
+  refine ⟨rfl, ?_⟩
+  intro k v t
+  unfold Prog.keptTy
+  cases p.declTy k with
+  | none => simp
+  | some t' =>
+    by_cases hv : isValueOf t' v = true
+    · simp only [hv, if_true, Option.some.injEq]
+      constructor
+      · rintro rfl; exact ⟨rfl, hv⟩
+      · rintro ⟨h, _⟩; exact h
+    · simp only [hv, Bool.false_eq_true, if_false, reduceCtorEq, false_iff]
+      rintro ⟨h, h'⟩
+      simp only [Option.some.injEq] at h
+      subst h
+      exact hv h'
+
+/-- **the typed constant of an integer parameter is `Qint_w.const(v)`** -/
+theorem typed_const_qint (q : Quirks) (w : Nat) (v : Int)
+    (h : isValueOf (.qint w) (.atom (.i v)) = true) :
+    constVal (WAlg q) (some (.qint w)) (.atom (.i v)) = some (.q (qintConst w v))
+    ∧ (qintConst w v).length = w := by
+  obtain ⟨y, x, he, hc, ht⟩ := typed_defined q (.qint w) (.atom (.i v)) h
+  have hq := wCast_const_qint w v h
+  have hw : 0 < w := by
+    simp only [isValueOf, Bool.and_eq_true, decide_eq_true_eq] at h
+    have := qintTypes_widths w (by simpa using h.1.1)
+    omega
+  refine ⟨?_, qintConst_length w v hw⟩
+  unfold constVal
+  cases hl : constToQint v with
+  | none => simp [hl] at hq
+  | some l =>
+    have : evalExp (WAlg q) Env.empty (toVal (.atom (.i v))) = some (.q l) := by
+      simp [toVal, evalExp, WAlg, hl]
+    rw [this]
+    simp only [hl, Option.bind] at hq
+    exact hq
+
+/-- **a value of the declared type is never rejected**, in the width-aware values: the typed constant is
+    defined and has the shape of the declared type (every `Qint[n]` component exactly `n` bits) -/
+theorem typed_const_defined (q : Quirks) (t : Ty) (v : PyVal) (h : isValueOf t v = true) :
+    ∃ x, constVal (WAlg q) (some t) v = some x ∧ hasTy t x := by
+  obtain ⟨y, x, he, hc, ht⟩ := typed_defined q t v h
+  exact ⟨x, by unfold constVal; rw [he]; exact hc, ht⟩
+
 
 /-! ## purity -/
 
@@ -318,13 +381,13 @@ theorem bind_drops_type_witness :
     let q : Quirks := { bindDropsType := true }
     let a0 : WV := .q [false, false, false, false]
     (∃ p', QV.Bind.bind q wProg wKv = .ok p' ∧ flat (Sem (WAlg q) p' [a0]) = some [false, false, false, false])
-    ∧ flat (specialised (WAlg q) wProg.declTy wProg wKv [a0]) = some [false, false, true, true]
-    ∧ pyInt (specialised PyAlg wProg.declTy wProg wKv [.i 0]) = some 12
+    ∧ flat (specialised (WAlg q) wProg.keptTy wProg wKv [a0]) = some [false, false, true, true]
+    ∧ pyInt (specialised PyAlg wProg.keptTy wProg wKv [.i 0]) = some 12
     ∧ ¬ C08_statement_for q := by
   intro q a0
   have hb : QV.Bind.bind q wProg wKv = .ok wBound := rfl
   have h1 : flat (Sem (WAlg q) wBound [a0]) = some [false, false, false, false] := by decide
-  have h2 : flat (specialised (WAlg q) wProg.declTy wProg wKv [a0]) = some [false, false, true, true] := by
+  have h2 : flat (specialised (WAlg q) wProg.keptTy wProg wKv [a0]) = some [false, false, true, true] := by
     decide
   refine ⟨⟨_, hb, h1⟩, h2, by decide, ?_⟩
   intro hst
